@@ -18,7 +18,7 @@
     X(keyset) X(selfset) X(tset) X(keyget) X(selfget) X(tget)                 \
     X(xscreate) X(xsbasic) X(setrank) X(rankcheck) X(xsrevive) X(setmain)      \
     X(ppush) X(ppushm) X(ppop) X(ppopm) X(premove) X(psize) X(uself) X(pmove) X(stackuse)    \
-    X(rdlockn) X(rwunlockn)
+    X(rdlockn) X(rwunlockn) X(createmany) X(selfexit)
 
 enum {
 #define X(n) OP_##n,
@@ -503,6 +503,9 @@ static void exec_op(actor *a, op_t *o)
         case OP_createon:
             op_create_ex(a, a0, 2, a1);
             break;
+        case OP_createmany:
+            op_create_many(a, o);
+            break;
         case OP_revive:
             op_revive(a, a0, a1, 0);
             break;
@@ -522,7 +525,10 @@ static void exec_op(actor *a, op_t *o)
             op_chkpayload(a, a0, o->a[1]);
             break;
         case OP_exit:
-            op_exit(a);
+            op_exit(a, 0);
+            break;
+        case OP_selfexit:
+            op_exit(a, 1);
             break;
         case OP_cancel:
             op_cancel(a, a0);
